@@ -11,9 +11,15 @@ PROP = {
 }
 
 TEXT = {
-    "text": "Expression language model (lexer, parser, evaluator, lookup) compared with the generated ragel/yacc front end and the "
-            "evaluator on every run; lookup and pipeline laws proved over all values.",
-    "design_ref": "DESIGN.md 6 C08",
-    "note": NOTE,
-    "technique": "Lean 4 proof + model/implementation correspondence",
+    "text": ('Theorems over all values and environments: literals denote themselves, a name its binding (nil when undefined), '
+              'a[i] / a[-k] / out-of-range / non-integer index, first/last/size of arrays, m.k = m["k"], missing key nil, size '
+              'fallback and shadowing, properties of nil and scalars are nil, drops are looked through, one pipeline step '
+              'evaluates receiver then arguments left to right, an unknown filter is an error, and a pipeline is the left fold of '
+              'its steps (pipeline_fold). Ties: the expression lexer/parser model is compared with the generated ragel/yacc front '
+              'end (`eparse`), whole expressions in templates with the real evaluator (`render`, `exprs` with lookup oracles on '
+              'the real results).'),
+    "design_ref": 'DESIGN.md 6 C08',
+    "note": NOTE + ('Number literals outside the lexer model (e.g. exponent forms) are answered `unmodelled`.'),
+    "technique": ('Lean 4 proof (case analysis of lookup on the value type; induction over pipelines) + model/implementation '
+              'correspondence'),
 }
